@@ -11,6 +11,9 @@ CONSTANTS
   Vals = {"v1", "v2"}
   DefaultMedia = "application/json"
   Randomized = FALSE
+  CkAlpha = {97}
+  CkLen = 0
+  CkTwoPass = FALSE
   EncLen = 1
 INVARIANT XReadBackIsMap
 INVARIANT SetCookieGuarded
